@@ -23,6 +23,7 @@ pub struct World {
     pub refmap: HashMap<Ref, usize>,
     pub tokens: HashMap<UniqueId, i64>,
     pub next_fresh_token: i64,
+    pub root_label_override: bool,
 }
 
 fn uid_of_token(t: i64) -> UniqueId {
@@ -39,6 +40,7 @@ impl World {
             refmap: HashMap::new(),
             tokens: HashMap::new(),
             next_fresh_token: 1000,
+            root_label_override: false,
         }
     }
 
@@ -203,6 +205,9 @@ impl World {
             }
             if !saw_value {
                 lab = -7;
+            }
+            if self.root_label_override && class == "DataModel" && name == "DataModel" && props.iter().all(|(n, _)| n == "UniqueId" || n.starts_with("RefProp")) {
+                lab = 99;
             }
             label[k] = lab;
         }
@@ -440,48 +445,11 @@ pub fn run(max_ref: usize, num_slots: usize, input: &mut dyn BufRead, out: &mut 
     }
 }
 
-fn random_builder(w: &World, rng: &mut StdRng, label_base: i64, max_nodes: usize, uid_pool: i64) -> Value {
-    let n = rng.gen_range(1..=max_nodes);
-    let base = w.next_ref() as i64;
-    let mut nodes = Vec::new();
-    let mut pis: Vec<i64> = vec![0];
-    for i in 2..=n {
-        let lo = *pis.last().unwrap().max(&1);
-        pis.push(rng.gen_range(lo..=(i as i64 - 1)));
-    }
-    for i in 0..n {
-        let refp: Vec<i64> = (0..w.num_slots)
-            .map(|_| match rng.gen_range(0..6) {
-                0 | 1 | 2 => -1,
-                3 => 0,
-                _ => rng.gen_range(1..=(base + n as i64 - 1)),
-            })
-            .collect();
-        let uid = if uid_pool > 0 && rng.gen_bool(0.5) { rng.gen_range(1..=uid_pool) } else { 0 };
-        nodes.push(json!({"pi": pis[i], "label": label_base + i as i64, "refp": refp, "uid": uid}));
-    }
-    json!(nodes)
-}
-
-/// Seeded random driver: long episodes of valid calls.
-pub fn drive(seed: u64, episodes: usize, steps: usize, max_ref: usize, num_slots: usize, out: &mut dyn Write) {
-    std::panic::set_hook(Box::new(|_| {}));
-    let mut rng = StdRng::seed_from_u64(seed);
-    for epi in 0..episodes {
-        let ep = format!("drive:{}:{}", seed, epi);
-        let mut w = World::new(max_ref, num_slots);
-        emit(out, &ep, json!({"op": "reset"}));
-        let uid_pool = [0, 2, 4][rng.gen_range(0..3)];
-        let mut lab = 1;
-        for d in 1..=NUM_DOMS {
-            let b = random_builder(&w, &mut rng, lab, 3, uid_pool);
-            lab += 10;
-            let op = json!({"op": "new", "d": d, "b": b});
-            for ev in w.exec(&op) {
-                emit(out, &ep, ev);
-            }
-        }
-        for _ in 0..steps {
+fn random_steps(w: &mut World, rng: &mut StdRng, steps: usize, uid_pool: i64, lab_ref: &mut i64, ep: &str, out: &mut dyn Write) {
+    let max_ref = w.max_ref;
+    let num_slots = w.num_slots;
+    let mut lab = *lab_ref;
+    for _ in 0..steps {
             let d = rng.gen_range(0..NUM_DOMS);
             let live = w.live(d);
             let root = w.spec_ref(w.doms[d].as_ref().unwrap().root_ref());
@@ -489,7 +457,7 @@ pub fn drive(seed: u64, episodes: usize, steps: usize, max_ref: usize, num_slots
             let room = max_ref as i64 - w.refs.len() as i64;
             let choice = rng.gen_range(0..100);
             let op = if choice < 25 && room >= 1 {
-                let b = random_builder(&w, &mut rng, lab, (room as usize).min(4), uid_pool);
+                let b = random_builder(w, rng, lab, (room as usize).min(4), uid_pool);
                 lab += 10;
                 let p = if rng.gen_range(0..10) == 0 { 0 } else { live[rng.gen_range(0..live.len())] };
                 json!({"op": "insert", "d": d + 1, "p": p, "b": b})
@@ -548,14 +516,132 @@ pub fn drive(seed: u64, episodes: usize, steps: usize, max_ref: usize, num_slots
             let evs = w.exec(&op);
             let panicked = evs[0]["outcome"] == "panic";
             for ev in evs {
-                emit(out, &ep, ev);
+                emit(out, ep, ev);
             }
             if panicked && op["op"] != "transfer_within_bad" {
                 break;
             }
             for ev in w.walks(touched(&op)) {
+                emit(out, ep, ev);
+            }
+        }
+    *lab_ref = lab;
+}
+
+fn random_builder(w: &World, rng: &mut StdRng, label_base: i64, max_nodes: usize, uid_pool: i64) -> Value {
+    let n = rng.gen_range(1..=max_nodes);
+    let base = w.next_ref() as i64;
+    let mut nodes = Vec::new();
+    let mut pis: Vec<i64> = vec![0];
+    for i in 2..=n {
+        let lo = *pis.last().unwrap().max(&1);
+        pis.push(rng.gen_range(lo..=(i as i64 - 1)));
+    }
+    for i in 0..n {
+        let refp: Vec<i64> = (0..w.num_slots)
+            .map(|_| match rng.gen_range(0..6) {
+                0 | 1 | 2 => -1,
+                3 => 0,
+                _ => rng.gen_range(1..=(base + n as i64 - 1)),
+            })
+            .collect();
+        let uid = if uid_pool > 0 && rng.gen_bool(0.5) { rng.gen_range(1..=uid_pool) } else { 0 };
+        nodes.push(json!({"pi": pis[i], "label": label_base + i as i64, "refp": refp, "uid": uid}));
+    }
+    json!(nodes)
+}
+
+/// Seeded random driver: long episodes of valid calls.
+pub fn drive(seed: u64, episodes: usize, steps: usize, max_ref: usize, num_slots: usize, out: &mut dyn Write) {
+    std::panic::set_hook(Box::new(|_| {}));
+    let mut rng = StdRng::seed_from_u64(seed);
+    for epi in 0..episodes {
+        let ep = format!("drive:{}:{}", seed, epi);
+        let mut w = World::new(max_ref, num_slots);
+        emit(out, &ep, json!({"op": "reset"}));
+        let uid_pool = [0, 2, 4][rng.gen_range(0..3)];
+        let mut lab = 1;
+        for d in 1..=NUM_DOMS {
+            let b = random_builder(&w, &mut rng, lab, 3, uid_pool);
+            lab += 10;
+            let op = json!({"op": "new", "d": d, "b": b});
+            for ev in w.exec(&op) {
                 emit(out, &ep, ev);
             }
         }
+        random_steps(&mut w, &mut rng, steps, uid_pool, &mut lab, &ep, out);
+
+    }
+}
+
+/// C12, reader paths: a DOM obtained from the binary or the XML reader (from a file holding duplicate and
+/// distinct UniqueIds) is adopted as DOM 1 of an episode, which then continues with colliding inserts etc.
+pub fn drive_decoded(seed: u64, episodes: usize, steps: usize, max_ref: usize, out: &mut dyn Write) {
+    use rbx_dom_weak::types::{UniqueId, Variant};
+    std::panic::set_hook(Box::new(|_| {}));
+    let mut rng = StdRng::seed_from_u64(seed);
+    for epi in 0..episodes {
+        let format = if epi % 2 == 0 { "binary" } else { "xml" };
+        let ep = format!("decoded:{}:{}:{}", format, seed, epi);
+        // source DOM: a few instances under DataModel, UniqueIds from a small pool (duplicates likely)
+        let mut src = WeakDom::new(InstanceBuilder::new("DataModel"));
+        let root = src.root_ref();
+        let n = rng.gen_range(2..6);
+        let mut refs = vec![root];
+        for i in 0..n {
+            let parent = refs[rng.gen_range(0..refs.len())];
+            let label = 100 + i as i64;
+            let r = src.insert(
+                parent,
+                InstanceBuilder::new(CLASSES[(label.rem_euclid(3)) as usize])
+                    .with_name(format!("L{}", label))
+                    .with_property("Value", Variant::Int32(label as i32)),
+            );
+            refs.push(r);
+        }
+        let mut tokens: HashMap<UniqueId, i64> = HashMap::new();
+        for r in refs.iter().skip(1) {
+            if rng.gen_bool(0.8) {
+                let t = rng.gen_range(1..=3);
+                let id = uid_of_token(t);
+                tokens.insert(id, t);
+                // direct property write: bypasses the bookkeeping on purpose, so the file holds duplicates
+                src.get_by_ref_mut(*r).unwrap().properties.insert("UniqueId".into(), Variant::UniqueId(id));
+            }
+        }
+        let kids: Vec<Ref> = src.root().children().to_vec();
+        let decoded: Result<WeakDom, String> = if format == "binary" {
+            crate::bincase::write_bin(&src, &kids, rbx_binary::CompressionType::None).and_then(|d| crate::bincase::read_bin(&d))
+        } else {
+            crate::xmlcase::write_xml(&src, &kids, "WriteUnknown").and_then(|d| crate::xmlcase::read_xml(&d, "ReadUnknown"))
+        };
+        let mut w = World::new(max_ref, 1);
+        emit(out, &ep, json!({"op": "reset"}));
+        let mut lab = 1;
+        let b = random_builder(&w, &mut rng, lab, 2, 3);
+        lab += 10;
+        for ev in w.exec(&json!({"op": "new", "d": 2, "b": b})) {
+            emit(out, &ep, ev);
+        }
+        match decoded {
+            Ok(dom) => {
+                // register the decoded instances breadth-first from the root
+                let mut queue: std::collections::VecDeque<Ref> = [dom.root_ref()].into();
+                while let Some(r) = queue.pop_front() {
+                    w.register(r);
+                    queue.extend(dom.get_by_ref(r).unwrap().children().iter().copied());
+                }
+                w.tokens.extend(tokens);
+                w.doms[0] = Some(dom);
+                w.root_label_override = true;
+                let post = w.project();
+                emit(out, &ep, json!({"op": "decoded", "d": 1, "format": format, "next": w.refs.len() + 1, "outcome": "ok", "post": post}));
+            }
+            Err(e) => {
+                emit(out, &ep, json!({"op": "decoded", "d": 1, "format": format, "outcome": "err", "detail": e}));
+                continue;
+            }
+        }
+        random_steps(&mut w, &mut rng, steps, 3, &mut lab, &ep, out);
     }
 }
